@@ -159,8 +159,53 @@ func c10Intruder(t *rapid.T) C10Triple {
 		`BEGIN { "abc".length = 1; print "abc".length() }`,
 		`{ $.length = 9 ; $.pluck = 8 }`,
 		`BEGIN { a = []; a["push"] = 1; a["sort"]++ }`,
+		`BEGIN { t = "ab"; t[9] = 7; t[3]++; t[0] = "z"; print t }`,
+		`BEGIN { "hello"[7] = 1; x = "hello"[9]; x = 5; print "hello"[9] }`,
+		`BEGIN { n = 5; n.x = 1 } END { }`,
+		`BEGIN { b = true; b.k++; z = null; z.k = 1 }`,
+		`BEGIN { r = /a/; r.x = 2; r[0]++ }`,
+		`{ $.name[10] = 9; $.name[12]++ }`,
 	}).Draw(t, "intruder")
 	return C10Triple{Src: ast.BS(src), Files: []DFile{{Name: "in", Docs: []string{`{"a":1,"b":[1,2]}`}}}}
+}
+
+// c10Probe pairs: a generated store into the result of some read (whatever it
+// is: a member of a scalar, an index into a string, a method name, a missing
+// path), and an observer program that performs the same reads on fresh values.
+var c10Receivers = []string{`"hello"`, `"ab"`, `5`, `2.5`, `true`, `null`, `[1, 2]`, `[]`, `{a: 1}`, `{}`, `/re/`, `$.name`, `$.b`, `$.missing`, `$.a`}
+var c10Keys = []string{`[0]`, `[1]`, `[9]`, `[0 - 1]`, `.length`, `.x`, `.a`, `["k"]`, `.push`, `.upper`, `.floor`, `.pluck`, `[2.5]`, `.name`}
+
+func c10ProbeStore(t *rapid.T) (C10Triple, string, string) {
+	recv := rapid.SampledFrom(c10Receivers).Draw(t, "precv")
+	key := rapid.SampledFrom(c10Keys).Draw(t, "pkey")
+	op := rapid.SampledFrom([]string{" = 7", "++", " += 1", " = \"s\"", " = [1]"}).Draw(t, "pop")
+	// (every statement starts with a name: a leading '(' would continue the previous one)
+	prog := "{ print \"store\"\nv = " + recv + "\nv" + key + op + "\nprint \"stored\", v\nu = [" + recv + "]\nu[0]" + key + op + "\nprint u }"
+	if rapid.Bool().Draw(t, "viacopy") {
+		prog = "{ print \"store\"\nw = (" + recv + ")" + key + "\nw" + op + "\nprint \"stored\", w }"
+	}
+	return C10Triple{Src: ast.BS(prog), Files: []DFile{{Name: "in", Docs: []string{`{"a":1,"b":[1,2],"name":"nm"}`}}}}, recv, key
+}
+
+// c10ProbeObserve reads the same kind of place the store wrote to (same key on
+// the same and on other receivers), plus a few random ones.
+func c10ProbeObserve(t *rapid.T, recv0, key0 string) C10Triple {
+	var sb strings.Builder
+	sb.WriteString("{ print \"observe\"\n")
+	n := rapid.IntRange(3, 7).Draw(t, "nobs")
+	for k := 0; k < n; k++ {
+		recv := rapid.SampledFrom(c10Receivers).Draw(t, "orecv")
+		key := rapid.SampledFrom(c10Keys).Draw(t, "okey")
+		switch k {
+		case 0:
+			recv, key = recv0, key0
+		case 1:
+			key = key0
+		}
+		fmt.Fprintf(&sb, "o%d = (%s)%s\nprint %d, o%d is null, o%d is number, o%d is string\n", k, recv, key, k, k, k, k)
+	}
+	sb.WriteString("}")
+	return C10Triple{Src: ast.BS(sb.String()), Files: []DFile{{Name: "in", Docs: []string{`{"a":1,"b":[1,2],"name":"nm"}`}}}}
 }
 
 func c10FromCase(c *DCase) C10Triple {
@@ -171,14 +216,22 @@ func genC10(t *rapid.T) (*C10Session, []string) {
 	n := rapid.IntRange(2, 4).Draw(t, "ntriples")
 	s := &C10Session{}
 	var labels []string
+	intruders := map[int]bool{}
 	for k := 0; k < n; k++ {
 		switch rapid.IntRange(0, 9).Draw(t, "family") {
 		case 0, 1, 2:
 			s.Triples = append(s.Triples, c10Anchor(t))
 			labels = append(labels, "anchor-object-order")
-		case 3, 4:
+		case 3:
 			s.Triples = append(s.Triples, c10Intruder(t))
+			intruders[len(s.Triples)-1] = true
 			labels = append(labels, "intruder")
+		case 4:
+			st, recv, key := c10ProbeStore(t)
+			s.Triples = append(s.Triples, c10ProbeObserve(t, recv, key), st)
+			intruders[len(s.Triples)-1] = true
+			labels = append(labels, "intruder", "probe-store", "probe-observe")
+			k++
 		case 5:
 			c, _ := genC02(t)
 			s.Triples = append(s.Triples, c10FromCase(c))
@@ -201,9 +254,21 @@ func genC10(t *rapid.T) (*C10Session, []string) {
 			labels = append(labels, "faulted")
 		}
 	}
-	// every triple is executed 8 times, interleaved with the others
-	for rep := 0; rep < 8; rep++ {
-		perm := rapid.Permutation(seq(n)).Draw(t, "order")
+	// every triple is executed 8 times, interleaved with the others. In the first
+	// round the programs that try to leave something behind run last, so that every
+	// other program has a first execution on an untouched process to compare with.
+	for k := range s.Triples {
+		if !intruders[k] {
+			s.Schedule = append(s.Schedule, k)
+		}
+	}
+	for k := range s.Triples {
+		if intruders[k] {
+			s.Schedule = append(s.Schedule, k)
+		}
+	}
+	for rep := 1; rep < 8; rep++ {
+		perm := rapid.Permutation(seq(len(s.Triples))).Draw(t, "order")
 		s.Schedule = append(s.Schedule, perm...)
 	}
 	return s, labels
@@ -219,7 +284,7 @@ func seq(n int) []int {
 
 func TestC10(t *testing.T) {
 	rec := start(t, "C10", "exploration",
-		"sessions: 2-4 (program, selectors, input) triples executed in one process, each 8 times, interleaved in a random order (A B A C B A ...). Triples come from: an anchor family (print, for-in and printf %v over objects with 2-12 keys taken from the document, a literal, auto-creation and pluck, plus method lookups of every prototype); an intruder family (assignments to method names and builtins, nested method calls, odd uses of prototypes) that tries to leave state behind in the process; and the C02 / C07 / C09 / C15 / C11 generators (including runs that end in every error kind). Oracle: every execution of a triple gives byte-identical stdout, GetRootJson text and error (class, message, line, column). A sample of triples is also run 3 times through the binary in fresh processes. Non-trivial: the session contains a triple printing or iterating an object with >= 3 keys, or an intruder next to programs using the same prototype. distinct = distinct session.")
+		"sessions: 2-4 (program, selectors, input) triples executed in one process, each 8 times, interleaved in a random order (A B A C B A ...). Triples come from: an anchor family (print, for-in and printf %v over objects with 2-12 keys taken from the document, a literal, auto-creation and pluck, plus method lookups of every prototype); an intruder family (assignments to method names and builtins, nested method calls, stores into string indices and members of scalars, generated 'store into the result of any read' programs paired with observer programs performing the same reads) that tries to leave state behind in the process; and the C02 / C07 / C09 / C15 / C11 generators (including runs that end in every error kind). Oracle: every execution of a triple gives byte-identical stdout, GetRootJson text and error (class, message, line, column). A sample of triples is also run 3 times through the binary in fresh processes. Non-trivial: the session contains a triple printing or iterating an object with >= 3 keys, or an intruder next to programs using the same prototype. distinct = distinct session.")
 	defer rec.Finish()
 	rec.Assume("nondeterminism is detected probabilistically: a randomised order of >= 3 keys survives 8 executions with probability <= 3^-7 per case")
 	rec.Replayer("session", func(raw json.RawMessage) error {
